@@ -107,6 +107,17 @@ func HarnessC17Seq() {
 		c17Query("C17 reopened", c)
 		c.Close()
 	}
+	// the released file is replaced by an index with other rows (a nightly rebuild): the same
+	// data source, opened again in the same process, answers from the new file
+	verifMakeFile(p1, 0)
+	drvBuild(p1, c17RowsB)
+	c, err = drvOpen(d, dsns[0])
+	verifAssert(err == nil, "C17: a rebuilt file cannot be opened through the data source used before")
+	if err == nil {
+		c17QueryRows("C17 reopened after the file was rebuilt", c, 0, c17RowsB)
+		c17QueryRows("C17 reopened after the file was rebuilt", c, 1, c17RowsB)
+		c.Close()
+	}
 	verifReach("end")
 }
 
